@@ -135,20 +135,24 @@ func CallNth(vm *VM, goal, nth Term, k Cont, env *Env) *Promise {
 		err       error
 		parentEnv = env
 	)
-	p = Call(vm, goal, func(env *Env) *Promise {
-		n, err = addI(n, Integer(1))
-		if err != nil {
-			return Error(representationError(flagMaxInteger, parentEnv))
-		}
+	// The cut below needs a barrier of its own. The promise Call returns is the barrier of goal's own cuts: a cut in
+	// goal pops it, and a cut to a promise that is no longer on the stack empties the whole stack.
+	p = Delay(func(context.Context) *Promise {
+		return Call(vm, goal, func(env *Env) *Promise {
+			n, err = addI(n, Integer(1))
+			if err != nil {
+				return Error(representationError(flagMaxInteger, parentEnv))
+			}
 
-		u := Unify(vm, n, nth, k, env)
-		if nth, ok := nth.(Integer); ok && nth <= n {
-			return cut(p, func(context.Context) *Promise {
-				return u
-			})
-		}
-		return u
-	}, env)
+			u := Unify(vm, n, nth, k, env)
+			if nth, ok := nth.(Integer); ok && nth <= n {
+				return cut(p, func(context.Context) *Promise {
+					return u
+				})
+			}
+			return u
+		}, env)
+	})
 	return p
 }
 
